@@ -71,6 +71,10 @@ SIMPLER_CLASS = {
     "SlottedVertex": "Vertex",
     "HandoverVertex": "Vertex",
     "NestingVertex": "Vertex",
+    "UnhashableVertex": "Vertex",
+    "PriorityVertex": "Vertex",
+    "MigratingVertex": "Vertex",
+    "LabelledEdge": "DirectedEdge",
     "SubUniverse": "Universe",
     "FalsyUniverse": "Universe",
     "RenamedDirected": "DirectedEdge",
